@@ -26,6 +26,9 @@ use std::marker::PhantomData;
 use std::sync::{Arc, Mutex as StdMutex};
 
 pub type Call<'a> = &'a dyn Fn(TestRequest) -> (u16, Vec<u8>);
+/// Two requests in flight on ONE worker: both futures are polled in turn by the worker's executor (what an
+/// actix worker does with two connections). Handlers without an await point complete in their first poll.
+pub type Call2<'a> = &'a dyn Fn(TestRequest, TestRequest) -> ((u16, Vec<u8>), (u16, Vec<u8>));
 
 /// One server flavour: its state, its requests, the sequential reference and the way to the handlers.
 pub trait Flavour: 'static + Sync + Clone + Debug {
@@ -38,12 +41,38 @@ pub trait Flavour: 'static + Sync + Clone + Debug {
     fn direct(s: &mut Self::App, r: &Self::Req) -> String;
     fn digest(s: &Self::App) -> u64;
     /// Build the in-memory actix service of the calling thread over the shared state and run `body`.
-    fn serve(data: web::Data<shim::Mutex<Self::App>>, body: &mut dyn FnMut(Call));
-    /// The request through the real handler.
-    fn http(call: Call, r: &Self::Req) -> String;
+    fn serve(data: web::Data<shim::Mutex<Self::App>>, body: &mut dyn FnMut(Call, Call2));
+    /// The request for the real handler, and the canonical text of its response.
+    fn request(r: &Self::Req) -> TestRequest;
+    fn decode(r: &Self::Req, status: u16, body: &[u8]) -> String;
+    fn http(call: Call, r: &Self::Req) -> String {
+        let (status, body) = call(Self::request(r));
+        Self::decode(r, status, &body)
+    }
     fn gen_req(rng: &mut Rng, datasets: &[DatasetSpec], bts: &[u64], next_tag: &mut u64) -> Self::Req;
     fn init_req(dataset: &str) -> Self::Req;
     fn is_init(r: &Self::Req) -> bool;
+}
+
+macro_rules! make_call2 {
+    ($app:expr) => {
+        |a: TestRequest, b: TestRequest| -> ((u16, Vec<u8>), (u16, Vec<u8>)) {
+            let one = |req: TestRequest| {
+                let app = &$app;
+                async move {
+                    match test::try_call_service(app, req.to_request()).await {
+                        Ok(resp) => {
+                            let status = resp.status().as_u16();
+                            let body = test::read_body(resp).await;
+                            (status, body.to_vec())
+                        }
+                        Err(e) => (e.as_response_error().status_code().as_u16(), Vec::new()),
+                    }
+                }
+            };
+            block_on(futures::future::join(one(a), one(b)))
+        }
+    };
 }
 
 macro_rules! make_call {
@@ -149,7 +178,7 @@ impl Flavour for Uist {
         d.0
     }
 
-    fn serve(data: web::Data<shim::Mutex<su::AppState>>, body: &mut dyn FnMut(Call)) {
+    fn serve(data: web::Data<shim::Mutex<su::AppState>>, body: &mut dyn FnMut(Call, Call2)) {
         let app = block_on(test::init_service(
             App::new()
                 .app_data(data)
@@ -162,11 +191,12 @@ impl Flavour for Uist {
                 .service(su::uistv1_server::now),
         ));
         let call = make_call!(app);
-        body(&call);
+        let call2 = make_call2!(app);
+        body(&call, &call2);
     }
 
-    fn http(call: Call, r: &Req) -> String {
-        let req = match r {
+    fn request(r: &Req) -> TestRequest {
+        match r {
             Req::Init { dataset } => TestRequest::get().uri(&format!("/init/{}", crate::server::encode_segment(dataset))),
             Req::Tick { bt } => TestRequest::get().uri(&format!("/backtest/{bt}/tick")),
             Req::Insert { bt, order } => TestRequest::post().uri(&format!("/backtest/{bt}/insert_order")).set_json(su::uistv1_server::InsertOrderRequest { order: order.to_sut() }),
@@ -174,17 +204,19 @@ impl Flavour for Uist {
             Req::Fetch { bt } => TestRequest::get().uri(&format!("/backtest/{bt}/fetch_quotes")),
             Req::Now { bt } => TestRequest::get().uri(&format!("/backtest/{bt}/now")),
             Req::Info { bt } => TestRequest::get().uri(&format!("/backtest/{bt}/info")),
-        };
-        let (status, body) = call(req);
+        }
+    }
+
+    fn decode(r: &Self::Req, status: u16, body: &[u8]) -> String {
         if status != 200 {
             return format!("{status}");
         }
         match r {
-            Req::Init { .. } => match serde_json::from_slice::<su::uistv1_server::InitResponse>(&body) {
+            Req::Init { .. } => match serde_json::from_slice::<su::uistv1_server::InitResponse>(body) {
                 Ok(x) => format!("200 id={}", x.backtest_id),
                 Err(e) => format!("200 undecodable {e}"),
             },
-            Req::Tick { .. } => match serde_json::from_slice::<su::uistv1_server::TickResponse>(&body) {
+            Req::Tick { .. } => match serde_json::from_slice::<su::uistv1_server::TickResponse>(body) {
                 Ok(x) => format!(
                     "200 has_next={} trades=[{}] admitted=[{}]",
                     x.has_next,
@@ -194,15 +226,15 @@ impl Flavour for Uist {
                 Err(e) => format!("200 undecodable {e}"),
             },
             Req::Insert { .. } | Req::Delete { .. } => "200".to_string(),
-            Req::Fetch { .. } => match serde_json::from_slice::<su::uistv1_server::FetchQuotesResponse>(&body) {
+            Req::Fetch { .. } => match serde_json::from_slice::<su::uistv1_server::FetchQuotesResponse>(body) {
                 Ok(x) => format!("200 {}", crate::e1u::canon_quotes(&x.quotes)),
                 Err(e) => format!("200 undecodable {e}"),
             },
-            Req::Now { .. } => match serde_json::from_slice::<su::uistv1_server::NowResponse>(&body) {
+            Req::Now { .. } => match serde_json::from_slice::<su::uistv1_server::NowResponse>(body) {
                 Ok(x) => format!("200 now={} has_next={}", x.now, x.has_next),
                 Err(e) => format!("200 undecodable {e}"),
             },
-            Req::Info { .. } => match serde_json::from_slice::<su::uistv1_server::InfoResponse>(&body) {
+            Req::Info { .. } => match serde_json::from_slice::<su::uistv1_server::InfoResponse>(body) {
                 Ok(x) => format!("200 version={} dataset={}", x.version, x.dataset),
                 Err(e) => format!("200 undecodable {e}"),
             },
@@ -322,7 +354,7 @@ impl Flavour for Jura {
         d.0
     }
 
-    fn serve(data: web::Data<shim::Mutex<sj::AppState>>, body: &mut dyn FnMut(Call)) {
+    fn serve(data: web::Data<shim::Mutex<sj::AppState>>, body: &mut dyn FnMut(Call, Call2)) {
         let app = block_on(test::init_service(
             App::new()
                 .app_data(data)
@@ -334,37 +366,40 @@ impl Flavour for Jura {
                 .service(sj::jurav1_server::delete_order),
         ));
         let call = make_call!(app);
-        body(&call);
+        let call2 = make_call2!(app);
+        body(&call, &call2);
     }
 
-    fn http(call: Call, r: &JReq) -> String {
-        let req = match r {
+    fn request(r: &JReq) -> TestRequest {
+        match r {
             JReq::Init { dataset } => TestRequest::get().uri(&format!("/init/{}", crate::server::encode_segment(dataset))),
             JReq::Tick { bt } => TestRequest::get().uri(&format!("/backtest/{bt}/tick")),
             JReq::Insert { bt, order } => TestRequest::post().uri(&format!("/backtest/{bt}/insert_order")).set_json(sj::jurav1_server::InsertOrderRequest { order: order.to_sut() }),
             JReq::Delete { bt, asset, id } => TestRequest::post().uri(&format!("/backtest/{bt}/delete_order")).set_json(sj::jurav1_server::DeleteOrderRequest { asset: *asset, order_id: *id }),
             JReq::Fetch { bt } => TestRequest::get().uri(&format!("/backtest/{bt}/fetch_quotes")),
             JReq::Info { bt } => TestRequest::get().uri(&format!("/backtest/{bt}/info")),
-        };
-        let (status, body) = call(req);
+        }
+    }
+
+    fn decode(r: &Self::Req, status: u16, body: &[u8]) -> String {
         if status != 200 {
             return format!("{status}");
         }
         match r {
-            JReq::Init { .. } => match serde_json::from_slice::<sj::jurav1_server::InitResponse>(&body) {
+            JReq::Init { .. } => match serde_json::from_slice::<sj::jurav1_server::InitResponse>(body) {
                 Ok(x) => format!("200 id={}", x.backtest_id),
                 Err(e) => format!("200 undecodable {e}"),
             },
-            JReq::Tick { .. } => match serde_json::from_slice::<sj::jurav1_server::TickResponse>(&body) {
+            JReq::Tick { .. } => match serde_json::from_slice::<sj::jurav1_server::TickResponse>(body) {
                 Ok(x) => j_tick_text(x.has_next, &x.executed_trades, &x.inserted_orders),
                 Err(e) => format!("200 undecodable {e}"),
             },
             JReq::Insert { .. } | JReq::Delete { .. } => "200".to_string(),
-            JReq::Fetch { .. } => match serde_json::from_slice::<sj::jurav1_server::FetchQuotesResponse>(&body) {
+            JReq::Fetch { .. } => match serde_json::from_slice::<sj::jurav1_server::FetchQuotesResponse>(body) {
                 Ok(x) => format!("200 {}", crate::e1j::canon_quotes(&x.quotes)),
                 Err(e) => format!("200 undecodable {e}"),
             },
-            JReq::Info { .. } => match serde_json::from_slice::<sj::jurav1_server::InfoResponse>(&body) {
+            JReq::Info { .. } => match serde_json::from_slice::<sj::jurav1_server::InfoResponse>(body) {
                 Ok(x) => format!("200 version={} dataset={}", x.version, x.dataset),
                 Err(e) => format!("200 undecodable {e}"),
             },
@@ -430,6 +465,9 @@ pub struct Case<F: Flavour> {
     pub scripts: Vec<Vec<F::Req>>,
     /// the schedule: which thread got the baton at each decision
     pub schedule: Vec<u8>,
+    /// per simulated thread: issue the script's requests two at a time (two requests in flight on one worker)
+    #[serde(default)]
+    pub join: Vec<bool>,
 }
 
 pub struct E5<F: Flavour>(pub PhantomData<F>);
@@ -470,16 +508,30 @@ fn run_concurrent<F: Flavour>(case: &Case<F>, chooser: Chooser) -> RunOut {
             let sched = sched.clone();
             let events = events.clone();
             let panicked = panicked.clone();
+            let pipelined = case.join.get(t).copied().unwrap_or(false);
             scope.spawn(move || {
                 crate::common::install_panic_capture();
                 threads::enter(&sched, t);
                 let r = catch(|| {
-                    F::serve(data.clone(), &mut |call_svc: Call| {
-                        for (i, req) in script.iter().enumerate() {
-                            let call = threads::global_step();
-                            let resp = F::http(call_svc, req);
-                            let ret = threads::global_step();
-                            events.lock().unwrap().push(Event { thread: t, idx: i, call, ret, resp });
+                    F::serve(data.clone(), &mut |call_svc: Call, call2_svc: Call2| {
+                        let mut i = 0;
+                        while i < script.len() {
+                            if pipelined && i + 1 < script.len() {
+                                let call = threads::global_step();
+                                let ((sa, ba), (sb, bb)) = call2_svc(F::request(&script[i]), F::request(&script[i + 1]));
+                                let ret = threads::global_step();
+                                let (ra, rb) = (F::decode(&script[i], sa, &ba), F::decode(&script[i + 1], sb, &bb));
+                                let mut ev = events.lock().unwrap();
+                                ev.push(Event { thread: t, idx: i, call, ret, resp: ra });
+                                ev.push(Event { thread: t, idx: i + 1, call, ret, resp: rb });
+                                i += 2;
+                            } else {
+                                let call = threads::global_step();
+                                let resp = F::http(call_svc, &script[i]);
+                                let ret = threads::global_step();
+                                events.lock().unwrap().push(Event { thread: t, idx: i, call, ret, resp });
+                                i += 1;
+                            }
                         }
                     });
                 });
@@ -511,10 +563,15 @@ fn linearizable<F: Flavour>(case: &Case<F>, out: &RunOut) -> Result<Vec<(usize, 
     if n != total {
         return Err(format!("{} of {} requests completed", n, total));
     }
-    // per thread: events in program order
-    let mut per: Vec<Vec<&Event>> = vec![Vec::new(); case.scripts.len()];
+    // per (virtual) thread: events in program order. The second request of a pipelined pair runs concurrently
+    // with the first one on its worker, so it is not ordered after it: it goes to a virtual thread of its own
+    // (pairs follow each other in real time, which the stamps enforce).
+    let nt = case.scripts.len();
+    let mut per: Vec<Vec<&Event>> = vec![Vec::new(); 2 * nt];
     for e in &out.events {
-        per[e.thread].push(e);
+        let pipelined = case.join.get(e.thread).copied().unwrap_or(false);
+        let vt = if pipelined && e.idx % 2 == 1 { nt + e.thread } else { e.thread };
+        per[vt].push(e);
     }
     for v in per.iter_mut() {
         v.sort_by_key(|e| e.idx);
@@ -534,8 +591,9 @@ fn linearizable<F: Flavour>(case: &Case<F>, out: &RunOut) -> Result<Vec<(usize, 
                 F::direct(&mut st, r);
             }
             for (t, i) in order.iter() {
-                let got = F::direct(&mut st, &case.scripts[*t][*i]);
-                if got != per[*t][*i].resp {
+                let e = per[*t][*i];
+                let got = F::direct(&mut st, &case.scripts[e.thread][e.idx]);
+                if got != e.resp {
                     return false;
                 }
             }
@@ -564,7 +622,8 @@ fn linearizable<F: Flavour>(case: &Case<F>, out: &RunOut) -> Result<Vec<(usize, 
                 }
                 let mut ok = true;
                 for (tt, ii) in order.iter() {
-                    if F::direct(&mut st, &case.scripts[*tt][*ii]) != per[*tt][*ii].resp {
+                    let e = per[*tt][*ii];
+                    if F::direct(&mut st, &case.scripts[e.thread][e.idx]) != e.resp {
                         ok = false;
                         break;
                     }
@@ -589,6 +648,18 @@ fn linearizable<F: Flavour>(case: &Case<F>, out: &RunOut) -> Result<Vec<(usize, 
 fn judge<F: Flavour>(case: &Case<F>, chooser: Chooser, focus: &str, keep_text: bool) -> (Ctx, Vec<u8>) {
     let mut ctx = Ctx::new(focus, keep_text);
     let out = run_concurrent(case, chooser);
+    if out.gave_up {
+        // once the simulation is given up the threads run freely to their end: what they still did is not
+        // part of the deterministic execution and is not logged
+        ev!(ctx, "DEADLOCK after {} scheduling decisions", out.schedule.len());
+        let msg = format!(
+            "the simulated threads could not all finish: some thread waits for a lock that is never released (deadlock), or 100 000 scheduling steps passed; scripts {:?}, requests in flight two at a time on workers {:?}",
+            case.scripts, case.join
+        );
+        ctx.fail("C08", "deadlock-or-livelock", "threads", msg.clone());
+        ctx.fail("C07", "deadlock-or-livelock", "threads", msg);
+        return (ctx, out.schedule);
+    }
     for e in &out.events {
         ev!(ctx, "t{} #{} [{}..{}] {:?} -> {}", e.thread, e.idx, e.call, e.ret, case.scripts[e.thread][e.idx], e.resp);
         ctx.ileave(e.thread as u64, 0, e.idx as u64);
@@ -608,10 +679,7 @@ fn judge<F: Flavour>(case: &Case<F>, chooser: Chooser, focus: &str, keep_text: b
     if let Some(p) = &out.panicked {
         ev!(ctx, "PANIC {p}");
         ctx.fail("C08", "sut-panic", "threads", format!("a handler panicked under a thread schedule: {p}"));
-        return (ctx, out.schedule);
-    }
-    if out.gave_up {
-        ctx.fail("C08", "deadlock-or-livelock", "threads", "the simulated threads could not all finish (deadlock, or 100 000 scheduling steps)".to_string());
+        ctx.fail("C07", "sut-panic", "threads", format!("a handler panicked under a thread schedule: {p}"));
         return (ctx, out.schedule);
     }
     match linearizable(case, &out) {
@@ -619,6 +687,7 @@ fn judge<F: Flavour>(case: &Case<F>, chooser: Chooser, focus: &str, keep_text: b
         Err(why) => {
             let hist = out.events.iter().map(|e| format!("t{}#{}[{}..{}] {:?} -> {}", e.thread, e.idx, e.call, e.ret, case.scripts[e.thread][e.idx], e.resp)).collect::<Vec<_>>().join(" | ");
             ctx.fail("C08", "not-linearizable", "threads", format!("{why}: {hist}"));
+            ctx.fail("C07", "not-linearizable", "threads", format!("{why}: {hist}"));
         }
     }
     ctx.state(out.events.len() as u64 * 31 + out.switches.min(20));
@@ -679,7 +748,10 @@ impl<F: Flavour> Engine for E5<F> {
             }
             scripts[t].push(F::gen_req(&mut g, &datasets, &known, &mut next_tag));
         }
-        let mut case = Case { datasets, setup, scripts, schedule: Vec::new() };
+        // drawn from a fork so that the other runs stay what they were
+        let mut jr = root.fork("pipelined-workers");
+        let join: Vec<bool> = (0..n_threads).map(|_| jr.one_in(3)).collect();
+        let mut case = Case { datasets, setup, scripts, schedule: Vec::new(), join };
         let (ctx, schedule) = judge(&case, Chooser::Random(root.fork("sched")), focus, keep_text);
         case.schedule = schedule;
         (case, ctx)
